@@ -102,8 +102,7 @@ Definition difference (a o : bf) : bf := difference_inplace a o.
 (** Index ranges of the [shift_up] loops. *)
 Definition range_down (lo hi : N) : list N :=        (* (lo..hi).rev() *)
   map (fun k => lo + N.of_nat k) (rev (seq 0 (N.to_nat (hi - lo)))).
-Definition range_up (lo hi : N) : list N :=
-  map (fun k => lo + N.of_nat k) (seq 0 (N.to_nat (hi - lo))).
+(* [range_up]: RustSem.v *)
 
 (** [shift_up(n)].  The first loop propagates errors with [?]; the second one unwraps. *)
 Definition shift_up (b : bf) (n : N) : outcome bf :=
